@@ -49,6 +49,8 @@ def core_schema():
               rfqs="opaque", model="opaque", measure="opaque", history="int", measures="opaque", pseudo="bool", throw_nan="bool", include_types="opaque", exclude_types="opaque",
               item="opaque", pred="opaque", if_none="bool", fmt_string="opaque", _name="opaque")
     s.declare(limit_f="float")
+    # per-node risk bookkeeping of UpdateRisk for the algo's own measure (C20): hasattr(node,'risk'), measure in node.risk, node.risk[measure], hasattr(node,'risks')
+    s.declare(risk_has="bool", risk_m_has="bool", risk_m="float", risks_has="bool")
     s.declare(_last_chk="optdate", _funiverse_hi="date")
     s.declare(_weights="optdict", _days_left="optfloat", rot_n="float", _rb="ref:Rebalance")
     # Backtest
